@@ -252,6 +252,23 @@ theorem C10_model_noversion (c : Catalog) (pre : List Name) (name : Name) (hn : 
       (lookupModel c (nsOf c pre.reverse) name).map fun info => ⟨info.project, name, none⟩ :=
   getPredictor_noversion c pre name hn
 
+/-- no hidden state: what a model reference resolves to (record, name as written, version) depends only on that
+reference and the catalog — not on the references met before or after it in the same statement (`UNION` of
+`pred.1` and `pred.2`, a CTE plus the main query, two joined sub-selects, …).  The model has this by construction;
+the `predseq` stream of `tools/props/c10.py` ties it to the code: ONE real planner resolves a whole sequence and
+every answer must equal the stateless model's answer for that reference alone. -/
+theorem C10_model_no_hidden_state (c : Catalog) (before after : List (List Name)) (r : List Name) :
+    (resolveModels c (before ++ r :: after))[before.length]? = some (getPredictor c r) := by
+  simp [resolveModels]
+
+/-- in particular two references to the same model with different versions keep their own versions -/
+theorem C10_model_versions_independent (c : Catalog) (pre : List Name) (name v w : Name)
+    (hv : isDigitStr v = true) (hw : isDigitStr w = true) :
+    resolveModels c [pre ++ [name, v], pre ++ [name, w]] =
+      [(lookupModel c (nsOf c pre.reverse) name).map fun info => ⟨info.project, name, some v⟩,
+       (lookupModel c (nsOf c pre.reverse) name).map fun info => ⟨info.project, name, some w⟩] := by
+  simp [resolveModels, getPredictor_version c pre name v hv, getPredictor_version c pre name w hw]
+
 /-- simple path (`plan_select_from_predictor`, time-series join): the step's namespace is the
 record's own `integration_name`, its predictor identifier is the name as written plus the version -/
 theorem C10_model_step_simple (c : Catalog) (parts : List Name) (ns : Name) (ps : List Name)
